@@ -38,7 +38,7 @@ def sibling_histories(seed, n):
 
 def run(chk):
     n = 30 if chk.tier == 'quick' else 300
-    return rc.run_property(chk, 'C01', ORACLES, restore=RESTORE, nq=250, extra_corpus=sibling_histories(chk.seed, n))
+    return rc.run_property(chk, 'C01', ORACLES, restore=RESTORE, nq=250, extra_corpus=sibling_histories(chk.seed, n), extra_props=['XvcRepo.Props.C01Cmd'])
 
 
 def replay(chk, data):
